@@ -280,6 +280,13 @@ func (v *Verifier) execStmt(fr *Frame, st *State, s ast.Stmt) []*State {
 						val = v.eng.zeroVal(v.eng.shapeOf(obj.Type()))
 					}
 					v.declare(fr, st, obj.(*types.Var), val)
+					if i >= len(vals) && obj.Type().String() == "bytes.Buffer" && v.eng.IntIdx() {
+						// the zero bytes.Buffer is empty: its byte log (identity of the variable) has length 0
+						if cell := fr.vars[obj]; cell != nil {
+							id := v.ptrIdentity(PtrVal{Loc: VarLoc{cell}}, n.Pos())
+							v.setGhostHeap(st, gChanLen, v.eng.C.Store(v.ghostHeap(st, gChanLen), id, v.eng.C.Inti(0)))
+						}
+					}
 				}
 			}
 		}
